@@ -596,16 +596,18 @@ func Open(msg []byte, known Verifiers) (*Note, error) {
 			return nil, errMismatchedVerifier
 		}
 
-		// Drop repeated signatures by a single verifier.
-		if seen[nameHash{name, hash}] {
-			continue
-		}
-		seen[nameHash{name, hash}] = true
-
 		ok := v.Verify(text, sig)
 		if !ok {
 			return nil, &InvalidSignatureError{name, hash}
 		}
+
+		// Drop repeated signatures by a single verifier
+		// (after checking them: a bad signature by a known key
+		// is an error wherever it stands).
+		if seen[nameHash{name, hash}] {
+			continue
+		}
+		seen[nameHash{name, hash}] = true
 
 		n.Sigs = append(n.Sigs, Signature{Name: name, Hash: hash, Base64: b64})
 	}
